@@ -122,8 +122,8 @@ if os.environ.get("NANOEMOJI_VERIF") == "1" and os.environ.get("VERIF_EVENTS"):
                 try:
                     nj = sys.modules.get("nanoemoji.ninja")
                     cf = sys.modules.get("nanoemoji.config")
-                    if nj is None or cf is None:
-                        return
+                    if nj is None or cf is None or not hasattr(nj, "maybe_run_ninja") or not hasattr(cf, "load_configs"):
+                        return  # still being imported
                     _state["done"] = True
                     kind, _, k = _df.partition(":")
                     if kind == "after_config_write":
